@@ -345,6 +345,10 @@ TASK_STATE_MACHINE_DATA = {
         events.ACTION_SUCCEEDED: statuses.SUCCEEDED,
     },
     statuses.PAUSING: {
+        # A with items task is pausing when the workflow is paused while there are still active
+        # items. If the workflow is resumed before the task is paused, resume the task as well.
+        events.WORKFLOW_RUNNING: statuses.RUNNING,
+        events.WORKFLOW_RESUMING: statuses.RUNNING,
         events.ACTION_PENDING_TASK_DORMANT_ITEMS_PAUSED: statuses.PAUSED,
         events.ACTION_PENDING_TASK_DORMANT_ITEMS_CANCELED: statuses.CANCELED,
         events.ACTION_PENDING_TASK_DORMANT_ITEMS_FAILED: statuses.FAILED,
